@@ -86,3 +86,73 @@ Fixpoint ends_with_dec (l : list sk) : bool :=
   end.
 
 Definition starts_with_dec (l : list sk) : bool := match l with SkDec _ _ :: _ => true | _ => false end.
+
+(* ---- guards of the cursor-advancing parts ------------------------------------------------------- *)
+Definition cond_eqb (a b : cond) : bool :=
+  match a, b with
+  | CTrue, CTrue => true
+  | CNotNil p, CNotNil q | CIsNil p, CIsNil q | CBool p, CBool q | CNotBool p, CNotBool q | CPosValid p, CPosValid q => list_string_eqb p q
+  | CTokEq p s, CTokEq q t | CTokNe p s, CTokNe q t => list_string_eqb p q && String.eqb s t
+  | CIntEq p z, CIntEq q w => list_string_eqb p q && Z.eqb z w
+  (* the decorator reads an optional token from the ast as a valid position, the restorer from the dst as a flag *)
+  | CPosValid p, CBool q | CBool p, CPosValid q => list_string_eqb p q
+  | _, _ => false
+  end.
+
+Definition cond_neg (c : cond) : cond :=
+  match c with
+  | CNotNil p => CIsNil p | CIsNil p => CNotNil p
+  | CBool p => CNotBool p | CNotBool p => CBool p
+  | CTokEq p s => CTokNe p s | CTokNe p s => CTokEq p s
+  | other => CUnknown "negation"
+  end.
+
+Definition gsk := (list cond * nat)%type.   (* guard stack, kind of advance: 0 token, 1 string, 2 bad *)
+
+Fixpoint frag_gsk (g : list cond) (s : gstmt) : list gsk :=
+  match s with
+  | GTok _ _ => [(g, 0)]
+  | GStr _ _ => [(g, 1)]
+  | GBad _ => [(g, 2)]
+  | GIf c body => (fix go (l : list gstmt) : list gsk := match l with [] => [] | x :: r => frag_gsk (g ++ [c]) x ++ go r end) body
+  | _ => []
+  end.
+
+Fixpoint rest_gsk (g : list cond) (s : rstmt) : list gsk :=
+  match s with
+  | RAdvTok _ => [(g, 0)]
+  | RAdvStr _ => [(g, 1)]
+  | RAdvLen _ => [(g, 2)]
+  | RIf c th el =>
+    (fix go (l : list rstmt) : list gsk := match l with [] => [] | x :: r => rest_gsk (g ++ [c]) x ++ go r end) th ++
+    (fix go (l : list rstmt) : list gsk := match l with [] => [] | x :: r => rest_gsk (g ++ [cond_neg c]) x ++ go r end) el
+  | _ => []
+  end.
+
+Fixpoint conds_eqb (a b : list cond) : bool :=
+  match a, b with [], [] => true | x :: a', y :: b' => cond_eqb x y && conds_eqb a' b' | _, _ => false end.
+
+Fixpoint gsks_eqb (a b : list gsk) : bool :=
+  match a, b with
+  | [], [] => true
+  | (g, k) :: a', (h, m) :: b' => conds_eqb g h && Nat.eqb k m && gsks_eqb a' b'
+  | _, _ => false
+  end.
+
+(* the restorer advances its cursor over a token, string or bad span under exactly the conditions
+   under which the decorator emits the fragment for it *)
+Definition token_guards_agree (ft : list (string * list gstmt)) (rt : list (string * list rstmt)) (u : universe_t) : bool :=
+  forallb (fun e =>
+    String.eqb (fst e) "Package" ||
+    match lookup ft (fst e), lookup rt (fst e) with
+    | Some fs, Some rs => gsks_eqb (flat_map (frag_gsk []) fs) (flat_map (rest_gsk []) rs)
+    | _, _ => false
+    end) u.
+
+Definition guards_differ (ft : list (string * list gstmt)) (rt : list (string * list rstmt)) (u : universe_t) : list string :=
+  flat_map (fun e =>
+    match lookup ft (fst e), lookup rt (fst e) with
+    | Some fs, Some rs => if gsks_eqb (flat_map (frag_gsk []) fs) (flat_map (rest_gsk []) rs) then [] else [fst e]
+    | _, _ => if String.eqb (fst e) "Package" then [] else [fst e]
+    end) u.
+
